@@ -119,7 +119,7 @@ def replay(beh, mode, rate_name="dyadic", ascending=True, seed=11, complex_src=F
     cfg, steps = beh["cfg"], beh["steps"]
     rate = RATES[rate_name]
     try:
-        src, ants = build(cfg, rate, ascending, seed)
+        src, ants = build(cfg, rate, ascending, seed, t_start=cfg.get("t0", 0) / rate)
     except Exception as e:  # construction itself is part of C15 (omitted delays)
         return Div("C15" if cfg.get("omitted") else "C10", "construct", "object", "%s: %s" % (type(e).__name__, e), -1)
     npol = cfg["pols"]
